@@ -559,6 +559,7 @@ type vxC04SessCase struct {
 	Codec    string            `json:"codec"`
 	Consumer int               `json:"consumer"`
 	Batch    bool              `json:"batch,omitempty"` // the statement travels as a one-statement BATCH (a conditional batch is answered with rows)
+	Stale    bool              `json:"stale,omitempty"` // the statement was prepared before the table got its last column: PREPARED describes one column less, the answer to EXECUTE carries the full metadata although the driver asked to skip it
 	Again    int               `json:"again,omitempty"` // afterwards the same Query object is executed again through 1 Query.Scan, 2 Query.MapScan (first row or ErrNotFound)
 }
 
@@ -580,7 +581,7 @@ func TestVxC04Session(t *testing.T) {
 			}
 			return &vxC04SessCase{Resp: r, Prepared: rapid.Bool().Draw(t, "prepared"), NoSkip: rapid.IntRange(0, 3).Draw(t, "noskip") == 0,
 				Codec: rapid.SampledFrom([]string{"", "", "snappy", "lz4"}).Draw(t, "codec"), Consumer: rapid.IntRange(0, 4).Draw(t, "consumer"),
-				Batch: rapid.IntRange(0, 4).Draw(t, "batch") == 0, Again: rapid.SampledFrom([]int{0, 0, 1, 2}).Draw(t, "again")}
+				Batch: rapid.IntRange(0, 4).Draw(t, "batch") == 0, Again: rapid.SampledFrom([]int{0, 0, 1, 2}).Draw(t, "again"), Stale: rapid.IntRange(0, 5).Draw(t, "stale") == 0}
 		},
 		New: func() interface{} { return &vxC04SessCase{} },
 		Run: func(ci interface{}, k *vstats.Case) error {
@@ -604,18 +605,23 @@ func TestVxC04Session(t *testing.T) {
 			cl := vnode.NewCluster(vxSpecs(1, 1))
 			node := cl.Nodes()[0]
 			node.CompressResponses = true
-			skipped := false
+			skipped, stale := false, false
 			node.Handler = func(rc *vnode.ReqCtx) {
 				switch rc.Req.Kind {
 				case "PREPARE":
 					rm := &cqlspec.Metadata{Columns: []cqlspec.Column{}}
 					if r.Kind == "ROWS" {
 						rm = &cqlspec.Metadata{Columns: r.Meta.Columns, GlobalSpec: r.Meta.GlobalSpec, Keyspace: r.Meta.Keyspace, Table: r.Meta.Table}
+						if c.Stale && len(r.Meta.Columns) > 0 {
+							rm.Columns = r.Meta.Columns[:len(r.Meta.Columns)-1]
+						}
 					}
 					rc.Reply(&cqlspec.Response{Kind: "PREPARED", PreparedIDHex: "0102", Meta: &cqlspec.Metadata{Columns: []cqlspec.Column{}}, ResultMeta: rm})
 				case "EXECUTE", "QUERY", "BATCH":
 					out := *r
-					if r.Kind == "ROWS" && rc.Req.Kind == "EXECUTE" && rc.Req.Params.SkipMeta {
+					if r.Kind == "ROWS" && rc.Req.Kind == "EXECUTE" && rc.Req.Params.SkipMeta && c.Stale && len(r.Meta.Columns) > 0 {
+						stale = true // the node knows the table has changed: it sends the metadata of these rows
+					} else if r.Kind == "ROWS" && rc.Req.Kind == "EXECUTE" && rc.Req.Params.SkipMeta {
 						m := *r.Meta
 						m.NoMetadata = true
 						out.Meta = &m
@@ -663,6 +669,9 @@ func TestVxC04Session(t *testing.T) {
 			defer func() {
 				if skipped {
 					k.Class("metadata-skipped")
+				}
+				if stale {
+					k.Class("metadata sent although skipping was asked (statement prepared before the last column existed)")
 				}
 				if nt || skipped {
 					k.NonTrivial()
